@@ -403,6 +403,41 @@ example : (ownRun (fun e => if e = Exit.consumerError then 2 else 1)
 example : (ownRun tryPackPuts
     [.get none 1, .finish 0 .consumerError, .get (some 0) 2, .get (some 0) 3]).borrowed = [1, 0] := by decide
 
+/-- **What "the primitive writes its bytes" buys.**  A span with no skipped
+position lands in the buffer as the very bytes a fresh buffer would show,
+whatever the buffer held — this is the assumption built into `PR.ok bs`, on
+which `buffer_noninterference` and `handled_eq_library` rest; the `example`s
+below show that ONE skipped position makes the pooled output depend on the
+previous pack while the library's zeroed buffer shows a zero.  `Gen` pins that
+on the sampled records of the compiled library no primitive skipped a byte. -/
+theorem full_span_is_buffer_independent (buf : Bytes) (off : Nat) (span : List (Option UInt8))
+    (hall : ∀ o ∈ span, o.isSome = true) (hfit : off + span.length ≤ buf.length) :
+    (writeMasked buf off span).take (off + span.length) = buf.take off ++ spanInFresh span := by
+  have hmap : ((span.zipIdx).map fun (o, i) => o.getD (buf.getD (off + i) 0)) = spanInFresh span := by
+    unfold spanInFresh
+    apply List.ext_getElem
+    · simp
+    · intro i h1 h2
+      simp only [List.getElem_map, List.getElem_zipIdx]
+      have hm : span[i]'(by simpa using h1) ∈ span := List.getElem_mem _
+      have := hall _ hm
+      cases hs : span[i]'(by simpa using h1) with
+      | none => rw [hs] at this; cases this
+      | some v => simp
+  unfold writeMasked
+  rw [hmap]
+  have hlen : (spanInFresh span).length = span.length := by simp [spanInFresh]
+  rw [← hlen]
+  exact writeAt_take buf off _ (by rw [hlen]; exact hfit)
+
+theorem library_writes_all_on_sample : SdnsVerif.Gen.C15.lib_writesall_violations = 0 := by decide
+
+-- a 4-byte span the primitive accounts for but does not write (an A record holding a non-IPv4 16-byte address):
+-- the pooled buffer keeps the previous pack's bytes there, a fresh buffer shows zeroes
+example : (writeMasked [0x5A, 0x5A, 0x5A, 0x5A, 0x5A, 0x5A] 1 [none, none, none, none]).take 5 = [0x5A, 0x5A, 0x5A, 0x5A, 0x5A] ∧
+    spanInFresh [none, none, none, none] = [0, 0, 0, 0] := by decide
+example : (writeMasked [0x5A, 0x5A, 0x5A, 0x5A, 0x5A, 0x5A] 1 [some 1, some 2, some 3, some 4]).take 5 = [0x5A, 1, 2, 3, 4] := by decide
+
 /-! ### the fallback and `PackClone` -/
 
 /-- **The immutable library fallback is the library.**  For every message —
